@@ -217,11 +217,15 @@ func classifySMTP(err error, planned bool) string {
 const c11Body = "From: <a@s1>\r\nSubject: verif\r\n\r\nhello\r\n"
 
 func (r *erun) ecall(c *eclient, op, ip, src string, raw, planned bool, how string) {
+	prev := r.parked()
+	defer func() { r.resume(prev) }()
 	r.mu.Lock()
 	c.pending, c.op = true, op
 	r.mu.Unlock()
-	r.tr.Emit("Call", vtrace.Ev{"m": c.name, "op": op, "ip": ip, "src": src, "d": "", "raw": raw, "how": how})
+	r.tr.Emit("Call", vtrace.Ev{"m": c.name, "op": op, "ip": ip, "src": src, "d": "", "raw": raw, "how": how,
+		"defer": r.def})
 	go func() {
+		r.enter(c.name)
 		res, detail := "ok", ""
 		defer func() {
 			if p := recover(); p != nil {
@@ -370,6 +374,7 @@ func runEndpointBehaviour(t *testing.T, b EBehaviour, w *bufio.Writer) {
 		}
 		r := &erun{run: run{t: t, b: Behaviour{ID: b.ID, Cfg: b.Cfg, Dual: b.Dual, Probe: b.Probe}, g: g, tr: tr,
 			cl: map[string]*client{}}, endp: endp, tgt: tgt, def: b.Defer, ec: map[string]*eclient{}}
+		r.installYield()
 		for i, st := range b.Hist {
 			planned := false
 			if st.A == "TakeMsg" {
@@ -383,17 +388,21 @@ func runEndpointBehaviour(t *testing.T, b EBehaviour, w *bufio.Writer) {
 			}
 			r.estep(st, planned)
 		}
-		for i := 0; i < 3 && len(r.pendingNames()) > 0; i++ {
-			r.tick()
+		endAll := func() {
+			r.resume(r.parked())
+			for i := 0; i < 3 && len(r.pendingNames()) > 0; i++ {
+				r.tick()
+			}
+			names := []string{}
+			for n := range r.ec {
+				names = append(names, n)
+			}
+			sort.Strings(names)
+			for _, n := range names {
+				r.estep(EStep{Step: Step{A: "RelMsg", M: n}}, false)
+			}
 		}
-		names := []string{}
-		for n := range r.ec {
-			names = append(names, n)
-		}
-		sort.Strings(names)
-		for _, n := range names {
-			r.estep(EStep{Step: Step{A: "RelMsg", M: n}}, false)
-		}
+		endAll()
 		// probe: for every source key used, N+1 fresh sessions; the first N get through, the
 		// last one waits and gets the permit when the first transaction ends
 		if b.Probe && b.Cfg.Source > 0 {
@@ -435,8 +444,9 @@ func runEndpointBehaviour(t *testing.T, b EBehaviour, w *bufio.Writer) {
 				}
 			}
 		}
-		for i := 0; i < 3 && len(r.pendingNames()) > 0; i++ {
-			r.tick()
+		// a caller that was parked late (yield point) may still have a transaction open
+		for i := 0; i < 3 && (r.parked() != nil || len(r.pendingNames()) > 0); i++ {
+			endAll()
 		}
 		r.snap("Quiesced")
 	})
